@@ -416,14 +416,17 @@ def main():
                         break
         inline_fns = {}
         for x in tools:
-            for mm in re.finditer(r"cannot find function `(\w+)` in this scope", x.get("message", "") + x.get("rendered", "")):
+            msgtxt = x.get("message", "") + x.get("rendered", "")
+            cands = [(mm.group(1), False) for mm in re.finditer(r"cannot find function `(\w+)` in this scope", msgtxt)]
+            cands += [(mm.group(1), True) for mm in re.finditer(r"no (?:variant, associated function, or constant|function or associated item|variant or associated item|associated item) named `([a-z_]\w*)` found", msgtxt)]
+            for nm_, assoc_ in cands:
                 for fpath in sorted(set(f["file"] for f in gen.functions)):
                     try:
-                        ff = find_simple_fn(open(os.path.join(args.repo, fpath)).read(), mm.group(1))
+                        ff = find_simple_fn(open(os.path.join(args.repo, fpath)).read(), nm_)
                     except Exception:  # noqa: BLE001
                         ff = None
                     if ff:
-                        inline_fns[mm.group(1)] = ff
+                        inline_fns[nm_] = (ff[0], ff[1], assoc_)
                         break
         auto_variant = {"inline": inline_map, "extra_consts": extra_consts, "inline_fns": inline_fns}
         if inline_map or extra_consts or inline_fns:
